@@ -52,6 +52,39 @@ type c02Case struct {
 	OutMode  int      `json:"output_mode,omitempty"`
 	Sandbox  bool     `json:"sandbox,omitempty"` // NoExec + NoFileWrites + NoFileReads
 	TimeoutM int      `json:"timeout_ms,omitempty"`
+	PadKind  string   `json:"pad_kind,omitempty"` // "a": PadLen bytes 'a'; "crlf": lines "aaaaaa\r\n" cut to PadLen bytes — prepended to Input
+	PadLen   int      `json:"pad_len,omitempty"`
+	Cuts     []int    `json:"cuts,omitempty"`    // stdin is delivered in chunks cut at these offsets (one chunk per Read)
+	History  []string `json:"history,omitempty"` // reuse stream: inputs (hex) of the Execute calls on ONE Interpreter; "R" = ResetVars+ResetRand before the next
+}
+
+// stdinBytes is the full standard input of the case.
+func (cs c02Case) stdinBytes() []byte {
+	in := vh.Unhx(cs.Input)
+	if cs.PadLen == 0 {
+		return in
+	}
+	pad := make([]byte, 0, cs.PadLen+len(in))
+	switch cs.PadKind {
+	case "crlf":
+		for len(pad) < cs.PadLen {
+			pad = append(pad, "aaaaaa\r\n"...)
+		}
+		pad = pad[:cs.PadLen]
+	default:
+		for len(pad) < cs.PadLen {
+			pad = append(pad, 'a')
+		}
+	}
+	return append(pad, in...)
+}
+
+func (cs c02Case) stdin() io.Reader {
+	b := cs.stdinBytes()
+	if len(cs.Cuts) == 0 {
+		return bytes.NewReader(b)
+	}
+	return vh.NewChunkReader(vh.Cut(b, cs.Cuts))
 }
 
 func mkCase(stream, src string, input []byte) c02Case {
@@ -79,6 +112,7 @@ type c02Out struct {
 	Dump     string // verify request ("" when not parsed)
 	NFuncs   int
 	CodeLen  int
+	Runs     []string // reuse stream: error text of every Execute
 }
 
 // limitWriter fails after max bytes so that runaway output stops the program instead of filling memory.
@@ -123,7 +157,7 @@ func runCaseW(cs c02Case, w io.Writer) (out c02Out) {
 		vars = append(vars, string(vh.Unhx(v)))
 	}
 	cfg := &interp.Config{
-		Stdin:        bytes.NewReader(vh.Unhx(cs.Input)),
+		Stdin:        cs.stdin(),
 		Output:       w,
 		Error:        io.Discard,
 		Vars:         vars,
@@ -151,15 +185,44 @@ func runCaseW(cs c02Case, w io.Writer) (out c02Out) {
 			out.Res.Err = "New: " + err.Error()
 			return
 		}
-		ctx, cancel := context.WithTimeout(context.Background(), time.Duration(to)*time.Millisecond)
-		defer cancel()
-		status, err := ip.ExecuteContext(ctx, cfg)
-		out.Res.Status = status
-		if err != nil {
-			out.Res.Err = err.Error()
-			if err == context.DeadlineExceeded {
-				out.TimedOut = true
+		exec1 := func() (int, error) {
+			ctx, cancel := context.WithTimeout(context.Background(), time.Duration(to)*time.Millisecond)
+			defer cancel()
+			return ip.ExecuteContext(ctx, cfg)
+		}
+		if len(cs.History) == 0 {
+			status, err := exec1()
+			out.Res.Status = status
+			if err != nil {
+				out.Res.Err = err.Error()
+				if err == context.DeadlineExceeded {
+					out.TimedOut = true
+				}
 			}
+			return
+		}
+		// reuse stream: several Execute calls on the same Interpreter
+		for _, h := range cs.History {
+			if h == "R" {
+				ip.ResetVars()
+				ip.ResetRand()
+				continue
+			}
+			hc := cs
+			hc.Input = h
+			cfg.Stdin = hc.stdin()
+			cfg.Output = &limitWriter{max: 4 << 20}
+			status, err := exec1()
+			out.Res.Status = status
+			e := ""
+			if err != nil {
+				e = err.Error()
+				if err == context.DeadlineExceeded {
+					out.TimedOut = true
+				}
+			}
+			out.Res.Err = e
+			out.Runs = append(out.Runs, e)
 		}
 	}()
 	return out
@@ -222,6 +285,7 @@ const (
 	expNFErr                   // must end with "NF set to negative value" / "NF set too large"
 	expNoErr                   // must end without error (and without timing out)
 	expSomeError               // must end with some error value
+	expSameError               // reuse stream: the Executes separated only by a reset on the same input must end in the same error class
 )
 
 type job struct {
@@ -292,6 +356,14 @@ func judge(j job, o c02Out) (what, got, want string) {
 		if cl == "none" {
 			return "expected a run-time error value", "no error", "an error"
 		}
+	case expSameError:
+		if len(o.Runs) >= 2 && !o.TimedOut {
+			a, b := errClass(o.Runs[0]), errClass(o.Runs[len(o.Runs)-1])
+			if a != b && a != "timeout" && b != "timeout" && a != "output-limit" && b != "output-limit" {
+				return "a reused Interpreter does not report the run-time error of the first Execute again on the same input",
+					fmt.Sprintf("run 1: %q; last run: %q", o.Runs[0], o.Runs[len(o.Runs)-1]), "the same error class in every run"
+			}
+		}
 	}
 	return "", "", ""
 }
@@ -322,7 +394,7 @@ func runBatch(c *vh.Ctx, jobs []job) batchStats {
 		st.parsed++
 		c.Hit("parse:accepted")
 		c.OracleCase()
-		c.Eval(j.cs.Src+"|"+j.cs.Input+"|"+strings.Join(j.cs.Vars, ","), o.CodeLen >= 4)
+		c.Eval(fmt.Sprint(j.cs.Src, "|", j.cs.Input, "|", j.cs.Vars, j.cs.Args, j.cs.PadKind, j.cs.PadLen, j.cs.Cuts, j.cs.History, j.cs.InMode, j.cs.OutMode, j.cs.Chars), o.CodeLen >= 4)
 		c.Hit("outcome:" + errClass(o.Res.Err))
 		if o.TimedOut {
 			st.timeouts++
@@ -510,6 +582,38 @@ func run(c *vh.Ctx) {
 	c.Note(fmt.Sprintf("mutants: %d from %d repository test programs, %d accepted by the parser, %d timeouts", len(bj), len(srcs), st.parsed, st.timeouts))
 
 	lap("mutants")
+	// 5a. special variables through every route (incl. var=value operands reached by the main loop and by getline)
+	rj := routeJobs(c)
+	st = runBatch(c, rj)
+	c.Note(fmt.Sprintf("routes: %d cases, %d accepted, %d timeouts", len(rj), st.parsed, st.timeouts))
+	lap("routes")
+	// 5b. reuse: the same programs as 2-3 Execute histories on one Interpreter
+	var pool []job
+	pool = append(pool, corpusJobs()...)
+	pool = append(pool, reuseDirected()...)
+	pick := func(js []job, n int) {
+		for i := 0; i < n && len(js) > 0; i++ {
+			pool = append(pool, js[c.Rng.Intn(len(js))])
+		}
+	}
+	pick(mj, c.N(300, 3000))
+	pick(gj, c.N(300, 6000))
+	pick(bj, c.N(300, 3000))
+	pick(rj, c.N(150, 1500))
+	uj := reuseJobs(c, pool, g)
+	st = runBatch(c, uj)
+	c.Note(fmt.Sprintf("reuse: %d histories of 2-3 Execute calls on one Interpreter, %d accepted, %d timeouts; the same-error clause is applied to programs "+
+		"without rand/srand, output redirection, pipes, system and file reads", len(uj), st.parsed, st.timeouts))
+	lap("reuse")
+	// 5c. input shapes per record-separator / CSV mode, through chunked readers and across the 64 KiB buffer edge
+	nshape := 0
+	shapeJobs(c, func(batch []job) {
+		nshape += len(batch)
+		runBatch(c, batch)
+	})
+	c.Note(fmt.Sprintf("shapes: %d cases (RS newline/byte/paragraph/regex/multi-byte char, CSV, TSV) x inputs over {LF, CR, sep, quote, a} x chunkings, incl. shapes "+
+		"straddling offset 65536; panics only (C07/C08 check the records)", nshape))
+	lap("shapes")
 	// 6. the goawk binary on a sample
 	binarySample(c)
 	lap("binary")
@@ -596,7 +700,7 @@ func modelConsts(c *vh.Ctx) {
 	if errClass(okF.Res.Err) != "none" || errClass(badF.Res.Err) != "field-too-large" {
 		c.Fail(vh.Failure{Kind: "correspondence", What: "the model's maxFieldIndex is not the real limit of setField",
 			Case: mkCase("consts", fmt.Sprintf(`BEGIN { $(%d) = 1 }`, maxField+1), nil),
-			Got: errClass(okF.Res.Err) + " / " + errClass(badF.Res.Err), Want: "none / field-too-large"})
+			Got:  errClass(okF.Res.Err) + " / " + errClass(badF.Res.Err), Want: "none / field-too-large"})
 	}
 }
 
